@@ -6,6 +6,7 @@
 #include <pthread.h>
 #include <unistd.h>
 #include <sys/wait.h>
+#include <sys/mman.h>
 #include <sys/time.h>
 const char *prop_id = "C15";
 long aw_live, aw_count, aw_fail_at, aw_fill_at, aw_failed_site; int aw_tracking, aw_fill_mode, aw_die_entered; char aw_die_msg[256];
@@ -42,7 +43,13 @@ static double now(void) { struct timeval tv; gettimeofday(&tv, NULL); return tv.
 int main(int argc, char **argv) {
   double t0 = now(); const char *outp = NULL, *tier = "quick";
   for (int i = 1; i < argc; i++) { if (!strncmp(argv[i], "--out=", 6)) outp = argv[i] + 6; if (!strncmp(argv[i], "--threads=", 10)) NT = atoi(argv[i] + 10); if (!strcmp(argv[i], "--tier=thorough")) { tier = "thorough"; ROUNDS = 10; } }
-  for (int q = 0; q < NMENU; q++) for (int d = 0; d < 2; d++) { const vop *o = find_op(MENU[q].op); REF[q][d] = run_digest(o, &o->shapes[MENU[q].shape % o->nshapes], d); }
+  { /* reference digests in a child: the image that starts the threads stays cold (no lazily built state exists yet) */
+    uint64_t (*shm)[2] = mmap(NULL, sizeof REF, PROT_READ | PROT_WRITE, MAP_SHARED | MAP_ANONYMOUS, -1, 0);
+    pid_t rp = fork();
+    if (rp == 0) { for (int q = 0; q < NMENU; q++) for (int d = 0; d < 2; d++) { const vop *o = find_op(MENU[q].op); shm[q][d] = run_digest(o, &o->shapes[MENU[q].shape % o->nshapes], d); } _exit(0); }
+    int rst; waitpid(rp, &rst, 0); if (!(WIFEXITED(rst) && WEXITSTATUS(rst) == 0)) { fprintf(stderr, "HARNESS-ERROR: reference run failed\n"); return 2; }
+    memcpy(REF, shm, sizeof REF);
+  }
   /* run the threads in a child so that a TSan report (exit 66) is observable */
   int status = 0, nfail = 0; char msg[300] = "";
   for (int nt = 2; nt <= NT; nt *= 2) {
